@@ -275,7 +275,11 @@ Definition gfp_step (st : state) (vw : view Data Src) (ns x : Z) : state * list 
       else (set_sid st1 (tdm_gfp_bump (s_sid st1)), if c1 then [TG] else [])
   else (st, []).
 
-Definition evaluate (st : state) (ns x : Z) : state * res (Out W) * list tr :=
+(* evaluate starts by forgetting the ns-gradients of the previous evaluation (fix 0119791) *)
+Definition forget_nsg (st : state) : state :=
+  set_bkg_nsg st (s_bkg st) (match ns2_reset_on_evaluate with None => None | Some _ => s_nsg st end).
+
+Definition evaluate_body (st : state) (ns x : Z) : state * res (Out W) * list tr :=
   match s_view st, s_evd st with
   | Some vw, Some evd =>
     let '(st0, tg) := gfp_step st vw ns x in
@@ -290,6 +294,9 @@ Definition evaluate (st : state) (ns x : Z) : state * res (Out W) * list tr :=
     end
   | _, _ => (st, Err TypeError, [])
   end.
+
+Definition evaluate (st : state) (ns x : Z) : state * res (Out W) * list tr :=
+  evaluate_body (forget_nsg st) ns x.
 
 (* ZeroSigH0SingleDatasetTCLLHRatio.calculate_ns_grad2 *)
 Definition ns_grad2 (st : state) (ns : Z) : res (Out2 W) :=
@@ -556,7 +563,7 @@ Definition i3_is_cached (c : option Z * Z * option (O W)) (sid x : Z) : bool :=
   negb (i3_sid_none (fst (fst c))) && negb (i3_sid_differs (fst (fst c)) sid) && negb (i3_key_differs (snd (fst c)) x).
 
 Definition i3_evaluate (s : i3state) (ns x : Z) : i3state * res (Out W) * list tr :=
-  let st := i_base s in
+  let st := forget_nsg W (i_base s) in
   match s_view st, s_evd st with
   | Some vw, Some evd =>
     let '(st0, tg) := gfp_step W C st vw ns x in
@@ -575,7 +582,7 @@ Definition i3_evaluate (s : i3state) (ns x : Z) : i3state * res (Out W) * list t
                       (Some (s_sid st1), x, Some o),
                  Ok (fin W o (Fbkg W cur) cur (ns, x)), tg ++ t)
       end
-  | _, _ => (s, Err TypeError, [])
+  | _, _ => (mki3 st (i_c s), Err TypeError, [])
   end.
 
 Definition i3step (s : i3state) (o : op W) : i3state * obs W * list tr :=
